@@ -66,10 +66,13 @@ def make_state(name, ibgp=False, as4=True, rib=False, account=None, hold=180):
     kw = dict(hold_time=hold, idle_hold_time=30, rib=rib)
     if account:
         kw['username'], kw['password'] = account
+    if as4 == 'local-off':
+        # the local speaker is configured without the 4-octet-AS capability, the peer advertises it: 2-octet session
+        kw['four_bytes_as'] = False
     if ibgp:
         kw['remote_as'] = 65001
     sim = Sim(**kw)
-    if not as4:
+    if as4 is False:
         # the peer does not advertise the 4-octet-AS capability: the session runs in 2-octet mode
         ss.establish(sim, upto=name, caps=[rc.cap_mp(1, 1), rc.cap(2), rc.cap(128)], as4=False)
         return sim
@@ -183,7 +186,7 @@ def rt_bytes(text):
 def send_request(draw):
     from vlib.props.c06 import as_path, community_in, prefix_list
     ibgp = draw(st.booleans())
-    as4 = draw(st.sampled_from([True, True, False]))
+    as4 = draw(st.sampled_from([True, True, False, 'local-off']))
     hold = draw(st.sampled_from([180, 180, 0, 3]))      # configured hold time of the session (0: no timers at all)
     shape = draw(st.sampled_from(['announce', 'announce', 'withdraw', 'both', 'v6', 'vpn4', 'rr', 'bin']))
     req = {}
@@ -198,14 +201,14 @@ def send_request(draw):
         data = b''.join(ss.marked_update(draw(st.integers(0, 60000)))[0] for _ in range(n))
         return {'ibgp': ibgp, 'as4': as4, 'hold': hold, 'shape': shape, 'req': {'hex': data.hex()}}
     if shape in ('announce', 'both'):
-        a = {'1': draw(st.integers(0, 2)), '2': draw(as_path(as4)), '3': draw(vs.ipv4_host)}
+        a = {'1': draw(st.integers(0, 2)), '2': draw(as_path(as4 is True)), '3': draw(vs.ipv4_host)}
         for c in draw(st.sets(st.sampled_from([4, 5, 6, 7, 8, 9, 10, 16, 32]), max_size=5)):
             if c in (4, 5):
                 a[str(c)] = draw(st.one_of(st.sampled_from([0, 100]), vs.u32))
             elif c == 6:
                 a['6'] = ''
             elif c == 7:
-                a['7'] = [draw(vs.asn4 if as4 else vs.asn2), draw(vs.ipv4_addr)]
+                a['7'] = [draw(vs.asn4 if as4 is True else vs.asn2), draw(vs.ipv4_addr)]
             elif c == 8:
                 a['8'] = draw(st.lists(community_in, min_size=1, max_size=4))
             elif c == 9:
@@ -310,7 +313,7 @@ def send_case(case):
         out.append(('send:frames=%d' % len(frames), 'status true but frames written: %r' % [(cid, t) for cid, t, _ in frames]))
         return out
     try:
-        d = rc.decode_update(frames[0][2], asn4=as4)
+        d = rc.decode_update(frames[0][2], asn4=(as4 is True))
     except rc.WalkError as e:
         return out + [('send:malformed-on-wire', str(e))]
     exp = expect_attrs(req.get('attr') or {}, ibgp)
@@ -385,7 +388,7 @@ def run_shard(spec, seed, col, tier):
         # the default-LOCAL_PREF rule, enumerated: session kind x LOCAL_PREF x MED boundary values x shape
         absent = None
         for ibgp, as4, hold in ((False, True, 180), (True, True, 180), (True, False, 180), (False, False, 180), (True, True, 0),
-                                (False, True, 0)):
+                                (False, True, 0), (False, 'local-off', 180), (True, 'local-off', 180)):
             for lp in (absent, 0, 1, 100, 2 ** 31, 2 ** 32 - 1):
                 for med in (absent, 0, 2 ** 32 - 1):
                     for shape in ('announce', 'both', 'withdraw'):
